@@ -725,4 +725,24 @@ theorem answer_eq (ops : List Op) (op : Op) :
     (step (exec init ops) op).2 = expected (hist init [] ops) op :=
   resp_eq (sim_exec sim_init ops) op
 
+theorem answer_spec (ops : List Op) (op : Op) : answer ops op = expected (logOf ops) op :=
+  answer_eq ops op
+
+theorem logOf_append (a b : List Op) : logOf (a ++ b) = log (logOf a) b := by
+  unfold logOf
+  rw [hist_append, hist_eq (sim_exec sim_init a)]
+
+theorem logOf_snoc (a : List Op) (op : Op) : logOf (a ++ [op]) = (op, answer a op) :: logOf a := by
+  unfold logOf answer
+  rw [hist_append]; rfl
+
+theorem logOf_insert (a : List Op) (op : Op) (b : List Op) :
+    logOf (a ++ op :: b) = log ((op, answer a op) :: logOf a) b := by
+  have : a ++ op :: b = (a ++ [op]) ++ b := by simp
+  rw [this, logOf_append, logOf_snoc]
+
+theorem logOf_eq_log (ops : List Op) : logOf ops = log [] ops := hist_eq sim_init ops
+
+theorem wellLogged_logOf (ops : List Op) : wellLogged (logOf ops) := wellLogged_hist ops
+
 end Health
